@@ -62,7 +62,7 @@ NOTE = (
     "Trusted: the structural-equality helper and the recursive content hash in checks/C08.py; the interception points "
     "(zarr.group, zarr.Group.create_array/require_group/create_group, zarr Attributes.__setitem__/put, zarr.Array.__setitem__, "
     "zipfile.ZipFile.write/writestr/close) cover the serializer's writes; faults are Python exceptions raised before the "
-    "effect (process death, torn writes and symlinked targets are outside the property); five (quick) or six (thorough) small object graphs."
+    "effect (process death and torn writes are outside the property; symlinked targets are judged by what HEAD does, see assumptions); five (quick) or six (thorough) small object graphs."
 )
 RULE = (
     "Cartesian product graph x fault position (every recorded write effect k, resp. every attribute/element position) x "
@@ -70,7 +70,9 @@ RULE = (
     "file, directory} x target spelling {'.zip' path | extension-less path with store='zip' (effective target path+'.zip', the "
     "un-suffixed path being an absent / directory-store / plain-file sibling); str | pathlib.Path} and, on a stated sub-lattice of the fault dimensions, x target name {stems ending in '.', 'z', 'i', 'p'; "
     "doubled and upper-case suffix; space; non-ASCII; several dots; relative path; trailing slash; store='auto'} with unrelated "
-    "complete saves at every name the target name could be confused with, plus the no-fault controls. A case is non-trivial when the fault actually fired inside save() "
+    "complete saves at every name the target name could be confused with; x edge pre-states {empty directory, zero-byte file, "
+    "directory with an empty sub-directory, dangling symlink, symlink to an empty directory}; x global mode {default, warnings as "
+    "errors, working directory elsewhere, torch.no_grad()}, plus the no-fault controls. A case is non-trivial when the fault actually fired inside save() "
     "(mode 'w' on an existing target is refused before any write and counts as trivial)."
 )
 
@@ -128,6 +130,16 @@ NAMES = {
     "d-enddot": {"kind": "dir", "store_arg": "dir", "given": "x.", "effective": "x.", "may_refuse": True},
 }
 PTYPES = ["str", "Path"]
+
+# Edge PRE-STATES of the target (besides absent / old / file / directory): existing paths with (almost) no content, and
+# symlinks. In mode 'w' an existing target of any kind makes save() refuse and stays byte-identical. The property is
+# silent about symlinks; accepted there is what the library does at HEAD as long as nothing existing is destroyed in
+# mode 'w': a dangling symlink does not "exist" for the library (os.path.exists is False), so it is not refused; the
+# link and the name it points to are then judged together as the target. A symlink to an (empty) directory is refused
+# in mode 'w' and cannot be removed in mode 'o' (rmtree refuses symlinks): both are failed saves that change nothing.
+EDGE_PRES = ["emptydir", "emptyfile", "dir_emptysub", "symlink_dangling", "symlink_emptydir"]
+# GLOBAL MODES of the process while save() runs (the default mode is the rest of the lattice)
+GMODES = ["warnings_error", "cwd_elsewhere", "no_grad"]
 
 
 def neighbour_names(effective, given):
@@ -382,7 +394,8 @@ def tree_hash(path):
 def snapshot_dir(parent, exclude):
     if not os.path.isdir(parent):
         return {"<parent directory>": "absent"}
-    return {n: tree_hash(os.path.join(parent, n)) for n in sorted(os.listdir(parent)) if n != exclude}
+    exclude = {exclude} if isinstance(exclude, str) else set(exclude)
+    return {n: tree_hash(os.path.join(parent, n)) for n in sorted(os.listdir(parent)) if n not in exclude}
 
 
 def snapshot_delta(before, after):
@@ -506,10 +519,22 @@ def intercepted(rec):
 _STATE = {"n": 0, "tpl": {}}
 
 
-def _quiet_save(obj, path, **kw):
+def _quiet_save(obj, path, gmode=None, elsewhere=None, **kw):
+    """save() with stdout swallowed, under the requested global mode of the process."""
     with contextlib.redirect_stdout(io.StringIO()), warnings.catch_warnings():
-        warnings.simplefilter("ignore")
-        obj.save(path, **kw)
+        warnings.simplefilter("error" if gmode == "warnings_error" else "ignore")  # -W error / PYTHONWARNINGS=error
+        if gmode == "no_grad":
+            with torch.no_grad():
+                obj.save(path, **kw)
+        elif gmode == "cwd_elsewhere":
+            cwd = os.getcwd()
+            os.chdir(elsewhere)
+            try:
+                obj.save(path, **kw)
+            finally:
+                os.chdir(cwd)
+        else:
+            obj.save(path, **kw)
 
 
 def _quiet_load(path):
@@ -562,11 +587,16 @@ def _cls(relation, case):
         "pre": case["pre"],
         "exc": case.get("exc") or "none",
         "spelling": spelling_of(case),
+        "global_mode": case.get("gmode") or "default",
     }
 
 
 def may_refuse_case(case):
-    """Target-name cases in which a refusal without any injected fault is legitimate."""
+    """Cases in which a failing save without any injected fault is legitimate (it is then judged like any failed save)."""
+    if case.get("gmode") == "warnings_error":
+        return True  # a save that fails because a warning became an error is one more failing save
+    if case["pre"] == "symlink_emptydir" or (case["pre"] == "symlink_dangling" and case["store"] == "dir"):
+        return True  # see EDGE_PRES
     if "name" not in case:
         return False
     e = NAMES[case["name"]]
@@ -590,7 +620,11 @@ def run_case(case, seed, scratch, verbose=False):
     os.makedirs(tmpd)
     spell = spelling_of(case)
     entry = NAMES[case["name"]] if "name" in case else None
-    neighbours, may_refuse, relative, store_arg = [], False, False, store
+    neighbours, may_refuse, relative, store_arg = [], may_refuse_case(case), False, store
+    gmode = case.get("gmode")
+    extras = []  # names that belong to the target (what a symlinked target points to)
+    elsewhere = os.path.join(cdir, "cwd")
+    os.makedirs(elsewhere)
     if entry is not None:
         # target-name alphabet: `store` is the kind of store the documentation promises for this name
         tname = entry["effective"]
@@ -599,7 +633,6 @@ def run_case(case, seed, scratch, verbose=False):
         relative = bool(entry.get("rel"))
         given = entry["given"] if relative else os.path.join(parent, entry["given"])
         neighbours = neighbour_names(tname, entry["given"])
-        may_refuse = may_refuse_case(case)
         store_arg = entry["store_arg"]
     else:
         tname = "o.zip" if store == "zip" else "o"
@@ -651,8 +684,31 @@ def run_case(case, seed, scratch, verbose=False):
             os.makedirs(os.path.join(target, "inside"))
             _write(os.path.join(target, "inside", "f.txt"), b"plain directory, not a store")
             _write(os.path.join(target, "top.txt"), b"t")
+        elif pre == "emptydir":
+            os.makedirs(target)
+        elif pre == "emptyfile":
+            _write(target, b"")
+        elif pre == "dir_emptysub":
+            os.makedirs(os.path.join(target, "empty"))
+        elif pre == "symlink_dangling":
+            extras = ["ghost.zip" if store == "zip" else "ghost"]
+            os.symlink(extras[0], target)
+        elif pre == "symlink_emptydir":
+            extras = ["realdir"]
+            os.makedirs(os.path.join(parent, "realdir"))
+            os.symlink("realdir", target)
         elif pre != "absent":
             raise ValueError(pre)
+        link0 = os.readlink(target) if os.path.islink(target) else None
+
+        def target_hash():
+            return "+".join(tree_hash(os.path.join(parent, n)) for n in [tname] + extras)
+
+        def siblings():
+            d = snapshot_dir(parent, [tname] + extras)
+            d["<other working directory>"] = tree_hash(elsewhere)
+            return d
+
         # ---- the object to save
         obj = build_graph(gname, seed)
         poison_before = C08Poison.fired
@@ -663,8 +719,8 @@ def run_case(case, seed, scratch, verbose=False):
         os.environ["TMPDIR"] = tmpd
         if relative:
             os.chdir(parent)  # restored in the finally block below
-        h_target0 = tree_hash(target)
-        sib0 = snapshot_dir(parent, tname)
+        h_target0 = target_hash()
+        sib0 = siblings()
         tmp0 = tree_hash(tmpd)
         # ---- save
         raised = None
@@ -673,7 +729,7 @@ def run_case(case, seed, scratch, verbose=False):
             r = Recorder(case.get("k"), INJ_EXC[case["exc"]] if case.get("exc") else None, root=os.path.abspath(cdir))
             with intercepted(r):  # seams are restored on exit, whatever happens (workers are long-lived)
                 try:
-                    _quiet_save(obj, arg, mode=mode, store=store_arg)
+                    _quiet_save(obj, arg, gmode=gmode, elsewhere=elsewhere, mode=mode, store=store_arg)
                 except BaseException as e:  # the behaviour under test (incl. KeyboardInterrupt)
                     raised = type(e).__name__
             rec["fired"] = r.fired is not None
@@ -682,12 +738,13 @@ def run_case(case, seed, scratch, verbose=False):
             rec["effect"] = r.fired
         else:
             try:
-                _quiet_save(obj, arg, mode=mode, store=store_arg)
+                _quiet_save(obj, arg, gmode=gmode, elsewhere=elsewhere, mode=mode, store=store_arg)
             except BaseException as e:
                 raised = type(e).__name__
             rec["fired"] = C08Poison.fired > poison_before
-        h_target1 = tree_hash(target)
-        sib1 = snapshot_dir(parent, tname)
+        h_target1 = target_hash()
+        sib1 = siblings()
+        target_gone = not any(os.path.lexists(os.path.join(parent, n)) for n in [tname] + extras)
         tmp1 = tree_hash(tmpd)
         rec["raised"] = raised
         # ---- judge: other paths
@@ -697,7 +754,9 @@ def run_case(case, seed, scratch, verbose=False):
             left = sorted(os.listdir(tmpd)) if os.path.isdir(tmpd) else "<temp dir removed>"
             fails.append((_cls("no_temp_entry_leaked", case), f"{describe(case)}: save() {'raised ' + raised if raised else 'returned'} and the private temp directory is not as before: left behind {left}; expected it unchanged (empty)"))
         # ---- judge: the target
-        expect_refusal = mode == "w" and pre != "absent"
+        expect_refusal = mode == "w" and pre not in ("absent", "symlink_dangling")
+        if mode == "w" and link0 is not None and (not os.path.islink(target) or os.readlink(target) != link0):
+            fails.append((_cls("write_once_existing_path_not_destroyed", case), f"{describe(case)}: mode 'w' and the target path exists as a symlink -> {link0!r}; save() {'raised ' + raised if raised else 'returned'} and afterwards the link is {'gone' if not os.path.lexists(target) else 'replaced'}; expected the existing path to survive a write-once save"))
         if expect_refusal:
             state = "unchanged" if h_target1 == h_target0 else "MODIFIED"
             if h_target1 != h_target0:
@@ -706,9 +765,9 @@ def run_case(case, seed, scratch, verbose=False):
                 fails.append((_cls("write_once_refuses", case), f"{describe(case)}: mode 'w' on an existing target ({pre}): save() returned normally; expected a refusal (exception)"))
         elif raised is None:
             # save claims success: it created or replaced exactly its effective target, and the complete new object is there
-            if sib0 != sib1 or h_target1 == "absent" or (h_target1 == h_target0 and fam != "seamfree"):
+            if sib0 != sib1 or target_gone or (h_target1 == h_target0 and fam != "seamfree"):
                 what = [snapshot_delta(sib0, sib1)] if sib0 != sib1 else []
-                what.append(f"effective target {tname!r} " + ("absent" if h_target1 == "absent" else "unchanged" if h_target1 == h_target0 else "written"))
+                what.append(f"effective target {tname!r} " + ("absent" if target_gone else "unchanged" if h_target1 == h_target0 else "written"))
                 fails.append((_cls("successful_save_writes_exactly_its_target", case), f"{describe(case)}: save() returned normally; listing of the parent directory before/after: {'; '.join(what)}; expected exactly one created or replaced entry, {tname!r}"))
             if fam == "seamfree":
                 state = "returned_with_poison"
@@ -751,6 +810,22 @@ def run_case(case, seed, scratch, verbose=False):
                                 f"(complete object has {sorted(vars(new))}; first difference: {d_new}); expected target absent, unreadable, or equal to a complete save",
                             )
                         )
+        if raised is not None and not expect_refusal:
+            # what a symlinked target points to is part of the target: nothing partial may be loadable there either
+            for n in extras:
+                pth = os.path.join(parent, n)
+                if not os.path.lexists(pth):
+                    continue
+                try:
+                    got = _quiet_load(pth)
+                except Exception:
+                    continue
+                new = build_graph(gname, seed)
+                d_new = struct_diff(got, new)
+                if d_new is not None and struct_diff(got, build_old(seed)) is not None:
+                    state += "+PARTIAL_AT_LINK_DESTINATION"
+                    have = sorted(vars(got)) if hasattr(got, "__dict__") else repr(got)
+                    fails.append((_cls("no_partial_object_loadable", case), f"{describe(case)}: save() raised {raised}; the target is a symlink -> {n!r} and afterwards load({n!r}) returns a {type(got).__name__} with attributes {have} (complete object has {sorted(vars(new))}; first difference: {d_new}); expected nothing partial loadable where the save was writing"))
         if may_refuse and raised is not None and fam in ("control", "record"):
             state = "refused:" + state
         rec["state"] = state
@@ -787,18 +862,20 @@ def describe(case):
         how = f"path given as {ptype} " + ("'…/o.zip'" if ext == "suffixed" else "'…/o' (extension-less, library appends .zip; effective target o.zip)") + f", un-suffixed sibling 'o' holds {'nothing' if stem == 'absent' else 'a complete directory-store object' if stem == 'dirstore' else 'a plain file'}"
     else:
         how = f"path given as {sp}"
-    return f"graph={case['graph']} store={case['store']} mode={case['mode']} pre={case['pre']} [{how}]: {where}"
+    gm = {"warnings_error": " under warnings-as-errors", "cwd_elsewhere": " with the working directory elsewhere", "no_grad": " under torch.no_grad()"}.get(case.get("gmode"), "")
+    return f"graph={case['graph']} store={case['store']} mode={case['mode']} pre={case['pre']}{gm} [{how}]: {where}"
 
 
 def case_key(case):
-    return [case["family"], case["graph"], case["store"], case["mode"], case["pre"], case.get("exc"), case.get("k"), case.get("path"), spelling_of(case)]
+    return [case["family"], case["graph"], case["store"], case["mode"], case["pre"], case.get("exc"), case.get("k"), case.get("path"), spelling_of(case), case.get("gmode")]
 
 
 def work(case, seed=0, scratch="/tmp"):
     t = Tally()
     rec, fails = run_case(case, seed, scratch)
-    expect_fire = case["family"] in ("injected", "seamfree") and not (case["mode"] == "w" and case["pre"] != "absent") and not may_refuse_case(case)
-    t.case(key=case_key(case), nontrivial=bool(rec["fired"]), outcome=[case["family"], case["store"], spelling_of(case), case["mode"], case["pre"], rec["raised"], rec["state"], bool(rec["fired"])])
+    refusal_expected = case["mode"] == "w" and case["pre"] not in ("absent", "symlink_dangling")
+    expect_fire = case["family"] in ("injected", "seamfree") and not refusal_expected and not may_refuse_case(case)
+    t.case(key=case_key(case), nontrivial=bool(rec["fired"]), outcome=[case["family"], case["store"], spelling_of(case), case.get("gmode"), case["mode"], case["pre"], rec["raised"], rec["state"], bool(rec["fired"])])
     t.extra[f"{case['family']}_cases"] += 1
     t.extra[f"state_{rec['state'].split(':')[0]}"] += 1
     if rec["fired"]:
@@ -813,7 +890,13 @@ def work(case, seed=0, scratch="/tmp"):
         t.extra["target_name_cases"] += 1
         if rec["state"].startswith("refused"):
             t.extra["target_name_refusals_of_extension_directories"] += 1
-    if case["family"] in ("injected", "seamfree") and not expect_fire and not may_refuse_case(case):
+    if case.get("gmode"):
+        t.extra[f"global_mode_{case['gmode']}_cases"] += 1
+        if rec["fired"]:
+            t.extra[f"global_mode_{case['gmode']}_faults_fired"] += 1
+    if case["pre"] in EDGE_PRES:
+        t.extra["edge_pre_state_cases"] += 1
+    if case["family"] in ("injected", "seamfree") and refusal_expected:
         t.extra["write_once_refusals_checked"] += 1
         if rec["fired"]:
             t.extra["fault_fired_in_write_once_refusal"] += 1
@@ -849,7 +932,8 @@ def record_effects(ctx, graph, store):
 def run(ctx):
     ctx.assume(
         "faults are Python exceptions raised at a third-party write call before the write happens; process death and torn writes are outside the property",
-        "the target is a regular path (absent, file or directory); symlinked targets are outside the quantifier",
+        "symlinked targets: the property is silent; accepted is what the library does at HEAD (a dangling link is written through, a link to a directory is refused in both modes) as long as a mode-'w' save never destroys the existing link and nothing else changes",
+        "under warnings-as-errors a save may fail without any injected fault (third-party warnings); it is then judged like every other failing save",
         "a target that loads to the COMPLETE new object after save() raised (possible only for a fault at the very last effect) is not a partial object and is accepted",
         "object values are restricted to types that round-trip exactly (round-trip fidelity is property C01)",
     )
@@ -902,7 +986,7 @@ def run(ctx):
     ki_graphs = ["attrs", "arrays", "nested"] if ctx.quick else list(graphs)
 
     def keep(m, p, idx, n):
-        return not (ctx.quick and m == "w" and p != "absent" and idx not in (0, n - 1))
+        return not (ctx.quick and m == "w" and p not in ("absent", "symlink_dangling") and idx not in (0, n - 1))
 
     def spellings(g, s):
         """(spelling, is_baseline) for this graph and store."""
@@ -995,9 +1079,59 @@ def run(ctx):
                             if keep(m, p, k, n):
                                 cases.append({"family": "injected", "graph": g, "store": kind, "mode": m, "pre": p, "exc": "OSError", "k": k, "n_effects": n, "name": nm, "ptype": pt})
     n_named = sum(1 for c in cases if "name" in c)
+
+    def some_positions(n, log=()):
+        zw = [i for i, tag in enumerate(log) if tag.startswith("ZipFile.write")]
+        return sorted({0, n // 2, n - 1} | ({zw[len(zw) // 2]} if zw else set()))
+
+    # edge PRE-STATES x both stores x both modes, without and with faults. thorough: every graph, OSError at every effect,
+    # poison at the first / last position; quick: graphs attrs/arrays, OSError at first / middle / middle of the zip
+    # assembly / last effect, poison at the last position.
+    edge_graphs = [g for g in graphs if g in ("attrs", "arrays")] if ctx.quick else list(graphs)
+    for g in edge_graphs:
+        pos = positions(build_graph(g, ctx.seed))
+        for s in STORES:
+            log = effects[(g, s)]
+            n = len(log)
+            for p in EDGE_PRES:
+                for m in MODES:
+                    cases.append({"family": "control", "graph": g, "store": s, "mode": m, "pre": p, "exc": None})
+                    for pi in ([len(pos) - 1] if ctx.quick else sorted({0, len(pos) - 1})):
+                        cases.append({"family": "seamfree", "graph": g, "store": s, "mode": m, "pre": p, "exc": "PicklingError", "path": [list(x) for x in pos[pi]]})
+                    if have_seams:
+                        for k in (some_positions(n, log) if ctx.quick else range(n)):
+                            if keep(m, p, k, n):
+                                cases.append({"family": "injected", "graph": g, "store": s, "mode": m, "pre": p, "exc": "OSError", "k": k, "n_effects": n})
+    n_edge = sum(1 for c in cases if c["pre"] in EDGE_PRES)
+    # GLOBAL MODES. warnings-as-errors: every fault position (OSError) and every poison position; working directory
+    # elsewhere and torch.no_grad(): first / middle / middle of the zip assembly / last effect and the last poison position;
+    # all with the no-fault controls. thorough: every graph and all 4 standard pre-states; quick: graphs attrs/tensors
+    # (tensors holds values that take the pickling fallback), pre-states absent/old.
+    gm_graphs = [g for g in graphs if g in ("attrs", "tensors")] if ctx.quick else list(graphs)
+    gm_pres = ["absent", "old"] if ctx.quick else PRES
+    for gm in GMODES:
+        every = gm == "warnings_error"
+        for g in gm_graphs:
+            pos = positions(build_graph(g, ctx.seed))
+            for s in STORES:
+                log = effects[(g, s)]
+                n = len(log)
+                for m in MODES:
+                    for p in gm_pres:
+                        cases.append({"family": "control", "graph": g, "store": s, "mode": m, "pre": p, "exc": None, "gmode": gm})
+                        for pi in (range(len(pos)) if every else [len(pos) - 1]):
+                            if keep(m, p, pi, len(pos)):
+                                cases.append({"family": "seamfree", "graph": g, "store": s, "mode": m, "pre": p, "exc": "PicklingError", "path": [list(x) for x in pos[pi]], "gmode": gm})
+                        if have_seams:
+                            for k in (range(n) if every else some_positions(n, log)):
+                                if keep(m, p, k, n):
+                                    cases.append({"family": "injected", "graph": g, "store": s, "mode": m, "pre": p, "exc": "OSError", "k": k, "n_effects": n, "gmode": gm})
+    n_gm = sum(1 for c in cases if c.get("gmode"))
     n_seamfree = sum(1 for c in cases if c["family"] == "seamfree")
     n_inj = sum(1 for c in cases if c["family"] == "injected")
-    ctx.say(f"{len(cases)} executions: {n_seamfree} seam-free, {n_inj} injected, {len(cases) - n_seamfree - n_inj} controls / recorded no-fault runs; {n_alt} of them with a non-baseline target spelling, {n_named} from the target-name alphabet")
+    n_seamfree = sum(1 for c in cases if c["family"] == "seamfree")
+    n_inj = sum(1 for c in cases if c["family"] == "injected")
+    ctx.say(f"{len(cases)} executions: {n_seamfree} seam-free, {n_inj} injected, {len(cases) - n_seamfree - n_inj} controls / recorded no-fault runs; {n_alt} of them with a non-baseline target spelling, {n_named} from the target-name alphabet, {n_edge} with an edge pre-state, {n_gm} under a non-default global mode")
     merged = ctx.pmap(work, cases, chunk=12, label="faults", seed=ctx.seed, scratch=ctx.scratch)
 
     fired_sf = int(merged.extra["seamfree_faults_fired"])
@@ -1015,6 +1149,8 @@ def run(ctx):
             "target_spellings": SPELLINGS,
             "target_names": {k: {"given": v["given"], "store": v["store_arg"], "effective_target": v["effective"], "relative": bool(v.get("rel")), "neighbours": neighbour_names(v["effective"], v["given"])} for k, v in NAMES.items()},
             "target_name_path_types": PTYPES,
+            "edge_pre_states": EDGE_PRES,
+            "global_modes": GMODES,
         },
         bounds={
             "write_effects_per_graph_store": {f"{g}/{s}": len(v) for (g, s), v in effects.items()},
@@ -1027,6 +1163,8 @@ def run(ctx):
                 "exceptions": ["OSError", "PicklingError"],
                 "executions": n_alt,
             },
+            "edge_pre_state_lattice": {"graphs": edge_graphs, "fault_positions": "first, middle, middle of the zip assembly, last" if ctx.quick else "all", "executions": n_edge},
+            "global_mode_lattice": {"graphs": gm_graphs, "pre_states": gm_pres, "fault_positions": {"warnings_error": "all", "cwd_elsewhere": "first, middle, middle of the zip assembly, last", "no_grad": "first, middle, middle of the zip assembly, last"}, "executions": n_gm},
             "target_name_lattice": {
                 "graphs": name_graphs,
                 "families": "controls (str on both graphs, Path on attrs); OSError at first/last effect and poison at last position (str; pre-states absent, old)" if ctx.quick else "controls; OSError at first/middle/middle of zip assembly/last effect; poison at first/last position; str and Path; all pre-states",
@@ -1041,6 +1179,10 @@ def run(ctx):
         raise Broken("seam-free family: no poison value ever fired (the serializer no longer pickles unknown values?)")
     if have_seams and fired_inj == 0:
         raise Broken("injected family: no fault ever fired")
+    if have_seams and merged.nfails == 0:
+        for gm in GMODES:
+            if not merged.extra[f"global_mode_{gm}_faults_fired"]:
+                raise Broken(f"global mode {gm}: no fault ever fired (every save fails before its first write under this mode?)")
     if merged.nfails == 0:
         if merged.extra["effect_count_differs_for_spelling"]:
             raise Broken("a non-baseline target spelling produced a different number of write effects than the reference run")
